@@ -348,6 +348,7 @@ def cbmc_cmd(u, inst, extra=()):
             '--max-field-sensitivity-array-size', '512']
     if inst.unwind is not None: cmd += ['--unwind', str(inst.unwind)]
     uws = dict(inst.unwindset)
+    uws.setdefault('__vp_ti_match.0', 9)   # exception type chains (catch-clause matching) are at most 8 deep
     if inst.recursion is not None:
         # recursion depth is bounded separately from loops (a symbolic virtual target would otherwise be unfolded --unwind levels deep)
         for fn in u.c_functions:
